@@ -56,7 +56,20 @@ pub fn main(args: &[String]) -> i32 {
     // phases bias the mix so that slot counts cross the chunk (256) and guard-pool (16) boundaries
     let mut emitted = 0usize;
     let mut panicked = false;
+    // "guard storms": every guard alive with roots, all dropped (overflowing the 16-entry guard-storage pool),
+    // all recreated - a recycled root vector must come back empty
+    let mut forced: std::collections::VecDeque<serde_json::Value> = std::collections::VecDeque::new();
+    let storm_at = [nops / 4, nops / 2, (3 * nops) / 4];
     while emitted < nops && !panicked {
+        if storm_at.contains(&emitted) && forced.is_empty() && sh.heap_alive {
+            for g in 1..=ng { if !sh.galive[g] { forced.push_back(serde_json::json!({"op":"create_guard","g":g})); } }
+            let mut free: Vec<usize> = (1..=nh).filter(|&i| w.hs[i].is_none()).collect();
+            for g in 1..=ng { for _ in 0..(1 + g % 3) { if let Some(h) = free.pop() { forced.push_back(serde_json::json!({"op":"alloc","g":g,"h":h})); } } }
+            for g in 1..=ng { forced.push_back(serde_json::json!({"op":"drop_guard","g":g})); }
+            for g in (1..=ng).rev() { forced.push_back(serde_json::json!({"op":"create_guard","g":g})); }
+            for g in 1..=ng { if g % 2 == 0 { if let Some(h) = free.pop() { forced.push_back(serde_json::json!({"op":"alloc","g":g,"h":h})); } } }
+            forced.push_back(serde_json::json!({"op":"collect"}));
+        }
         let phase = (emitted * 6 / nops.max(1)) % 3; // 0 grow, 1 churn, 2 shrink
         let roll = rng.below(100);
         let g = 1 + rng.below(ng);
@@ -66,9 +79,11 @@ pub fn main(args: &[String]) -> i32 {
         let alive_hs: Vec<usize> = (1..=nh).filter(|&i| w.hs[i].is_some()).collect();
         let pick_alive = |r: &mut Rng| if alive_hs.is_empty() { None } else { Some(alive_hs[r.below(alive_hs.len())]) };
         let live_guards: Vec<usize> = (1..=ng).filter(|&i| sh.galive[i]).collect();
-        let mut op: Option<serde_json::Value> = None;
+        let mut op: Option<serde_json::Value> = forced.pop_front();
+        let was_forced = op.is_some();
         let grow = match phase { 0 => 55, 1 => 30, _ => 12 };
-        if !sh.heap_alive {
+        if was_forced {
+        } else if !sh.heap_alive {
             // after drop_heap only handle clone/drop and guard bookkeeping are legal
             op = match roll % 6 {
                 0 => pick_alive(&mut rng).map(|h| serde_json::json!({"op":"drop","h":h})),
